@@ -727,6 +727,23 @@ def walk_ids(node, acc, depth=0, stats=None):
             walk_ids(v, acc, depth, stats)
 
 
+def typed_without_id(node):
+    """first typed node of the report that carries no @id (every node of the report must have one)"""
+    if isinstance(node, dict):
+        if "@type" in node and "@id" not in node:
+            return node
+        for v in node.values():
+            r = typed_without_id(v)
+            if r is not None:
+                return r
+    elif isinstance(node, list):
+        for v in node:
+            r = typed_without_id(v)
+            if r is not None:
+                return r
+    return None
+
+
 def check_result_shape(r, node_ids, names, nested=False):
     """the property's last sentence, on one result of the real report"""
     if not isinstance(r.get("focusNode"), str) or r["focusNode"] not in node_ids:
@@ -807,6 +824,8 @@ def check_C12(ctx):
             desc = None
             if "error" in m:
                 desc = ("model-error", m["error"])
+            elif typed_without_id(doc) is not None:
+                desc = ("node-without-id", f"a node of the report has no @id: {json.dumps(typed_without_id(doc))[:200]}")
             elif len(set(all_ids)) != len(all_ids):
                 dup = sorted(x for x in set(all_ids) if all_ids.count(x) > 1)[:3]
                 desc = ("duplicate-id", f"@id values occur twice in one report: {dup}")
